@@ -82,6 +82,10 @@ def scheduler_info(ctx):
             for name, ann, value in ci.fields:
                 if name not in (info["states"], info["sem"]) and isinstance(value, ast.Call) and any(k.arg == "factory" and dotted(k.value) == "dict" for k in value.keywords):
                     info["tasks"] = name
+    names = {f[0] for f in ci.fields}
+    for role, guess in (("states", "task_states"), ("tasks", "tasks"), ("sem", "cores_ressource")):
+        if info[role] is None and guess in names:
+            info[role] = guess  # helper methods hide the stores (e.g. _set_state): fall back to the field names
     for k in ("sem", "states", "tasks"):
         if info[k] is None:
             raise AnalysisError(f"cannot identify the Scheduler field playing the role '{k}'")
